@@ -930,15 +930,19 @@ class Interp:
             # r.append(f(x))  -- the same events in the same order
             g = node.generators[0]
             env2 = dict(env)
+            it = self.eval(g.iter, env2)
+            exact = it[0] in ("tuple", "list") and len(it[1]) <= 4 \
+                and not self.loop_depth
             if into is None:
                 self.fresh_counter += 1
                 res = ("newlist", self.fresh_counter)
-                self.path.builders[self.fresh_counter] = None
+                self.path.builders[self.fresh_counter] = [] if exact else None
             else:
                 res = into
-                if res[0] == "newlist":
+                if res[0] == "newlist" and not (
+                        exact and self.path.builders.get(res[1])
+                        is not None):
                     self.path.builders[res[1]] = None
-            it = self.eval(g.iter, env2)
             if it[0] in ("tuple", "list") and len(it[1]) <= 4:
                 elems = list(it[1])
             else:
@@ -953,6 +957,10 @@ class Interp:
                         self.path.effects.append(
                             ("call", ("call", ("attr", res, "append"), (v,),
                                       ()), node))
+                        if exact and res[0] == "newlist" and \
+                                self.path.builders.get(res[1]) is not None:
+                            self.path.builders[res[1]] = \
+                                self.path.builders[res[1]] + [v]
             finally:
                 self.loop_depth -= 1
             if elems and elems[0][0] == "elem" and elems[0][1] == it:
@@ -1323,6 +1331,27 @@ class Interp:
             self._forward(("attr", base, tgt.attr), val)
         elif isinstance(tgt, ast.Subscript):
             base = self.eval(tgt.value, env)
+            if isinstance(tgt.slice, ast.Slice) and isinstance(
+                    tgt.value, ast.Name) and tgt.value.id in env \
+                    and env[tgt.value.id][0] in ("copyof", "call", "binop") \
+                    and tgt.slice.step is None and (
+                        tgt.slice.lower is not None
+                        or tgt.slice.upper is not None):
+                lo = self.eval_int(tgt.slice.lower, env) \
+                    if tgt.slice.lower is not None else None
+                hi = self.eval_int(tgt.slice.upper, env) \
+                    if tgt.slice.upper is not None else None
+                if (lo is None or is_const(lo)) and (hi is None
+                                                     or is_const(hi)):
+                    # x[a:b] = v on a local copy: rebinding it to the splice
+                    x = env[tgt.value.id]
+                    out = val
+                    if lo is not None and lo != const(0):
+                        out = mk_add(("slice", x, None, lo), out)
+                    if hi is not None:
+                        out = mk_add(out, ("slice", x, hi, None))
+                    env[tgt.value.id] = out
+                    return
             if isinstance(tgt.slice, ast.Slice):
                 key = ("slice", None, None)
                 self.path.effects.append(("slice-store", base, val, node))
